@@ -223,6 +223,54 @@ def policy_peer_audits(ctx):
     ctx.evaluations += len(cases)
 
 
+def broken_peer_audits(ctx):
+    """The pattern rule on the ratings the tool SHOWS, not only on the table as imported: standard audits (real CLI over TCP, host-key and group-exchange
+    probes answered with large and small keys / moduli) of servers that offer every database name matching a broken-primitive pattern.  The probes edit the
+    per-scan copy of the table (size notes replace or extend the failure list); whatever they measure, an entry named after a broken primitive still shows a failure."""
+    import canon
+    import peers as P
+    import runner
+    from ssh_audit.ssh2_kexdb import SSH2_KexDB
+    db = SSH2_KexDB.MASTER_DB
+    broken = {c: [n for n in db[c] if not n.endswith('-*') and any(f(toks(n)) for f in PATS.values())] for c in ('kex', 'key', 'enc', 'mac')}
+    cases = [(bits, banner, opt) for bits in (1024, 2048, 3072, 4096) for banner in (b'SSH-2.0-OpenSSH_8.0', b'SSH-2.0-dropbear_2020.81') for opt in (['-n'], ['-j'])]
+    if ctx.quick:
+        cases = [c for i, c in enumerate(cases) if i % 4 in (0, 3)]
+
+    def do(z, case):
+        bits, banner, opt = case
+        hk = {b'ssh-rsa': P.rsa_blob(bits), b'rsa-sha2-256': P.rsa_blob(bits), b'ssh-ed25519': P.ed25519_blob()}
+        srv = P.new_ssh2_server(dict(banner=banner, kex=broken['kex'] + ['curve25519-sha256'], key=broken['key'] + ['rsa-sha2-256', 'ssh-ed25519'], enc=broken['enc'] + ['aes256-ctr'],
+                                     mac=broken['mac'] + ['hmac-sha2-256'], hostkeys=hk, gex=lambda a, b, c: bits if a <= bits <= c else None), stall_limit=3.0)
+        try:
+            return z.run(opt + ['--skip-rate-test', '-t', '2', '127.0.0.1:%d' % srv.port], timeout=180)
+        finally:
+            srv.shutdown()
+    with runner.Pool(8) as pool:
+        outs = pool.map(do, cases)
+    seen = set()
+    for (bits, banner, opt), r in zip(cases, outs):
+        desc = {'op': 'broken-peer-audit', 'bits': bits, 'banner': banner.decode(), 'opts': opt}
+        try:
+            algs = canon.json_algs(canon.load_json(r['out'])) if opt == ['-j'] else canon.parse_text(r['out'])['algs']
+        except canon.CanonError as e:
+            ctx.violation('broken-peer/no-report', 'standard audit of a server offering the broken-primitive names: exit %r, %s' % (r['rc'], e), desc)
+            continue
+        shown = {(a['cat'], a['name'].split(' ')[0]): a for a in algs}
+        for c in broken:
+            for n in broken[c]:
+                a = shown.get((c, n))
+                if a is None:
+                    ctx.violation('broken-peer/name-not-reported/%s/%s' % (c, n), 'the offered %s %r is missing from the report' % (c, n), desc)
+                    continue
+                seen.add((c, n))
+                if not any(l == 'fail' for (l, t) in a['notes']):
+                    ctx.violation('broken-shown-without-failure/%s/%s' % (c, n), 'after the probes (host keys and modulus of %d bits, banner %s) the %s %r, named after broken primitive(s) %s, is shown without a failure: %r' % (
+                        bits, banner.decode(), c, n, sorted(k for k, f in PATS.items() if f(toks(n))), a['notes']), desc)
+    ctx.extra['broken_peer_audits'] = {'audits': len(cases), 'distinct_broken_names_seen': len(seen)}
+    ctx.evaluations += len(cases)
+
+
 def model_failures(ctx):
     """When a C17 theorem no longer builds: ask the model for its offender lists (the counter-examples)."""
     out = {}
@@ -238,6 +286,7 @@ def run(ctx):
     ok = ctx.proofs(['C17'])
     oracle(ctx)
     policy_peer_audits(ctx)
+    broken_peer_audits(ctx)
     if not ok:
         ctx.extra['model_offender_lists'] = model_failures(ctx)
         for b in ctx.broken:
